@@ -15,7 +15,8 @@ from ..program import Interp
 from ..streams import Stream, digest, h64
 
 SELFTEST_ARG = {"pid": "C13", "tier": "quick", "light": True}
-TIERS = {"quick": (210, 32), "thorough": (6000, 1700)}
+TIERS = {"quick": (300, 32), "thorough": (6000, 1700)}
+HASHSEED_SLICE = {"quick": 3, "thorough": 24}  # scenarios cost ~1 s each and the cross-check runs them serially
 METHODS = ["SLSQP", "L-BFGS-B", "Nelder-Mead", "Powell"]
 FAULTS = ["real", "stall", "wander", "wander_after_real", "degenerate"]
 
@@ -769,7 +770,9 @@ def _biased_np(seed):
 
 def task(seed: int, arg: Dict[str, Any]) -> Dict[str, Any]:
     sc = gen_scenario(seed, light=arg.get("light", False))
-    sc["max_evals"] = 150 if arg.get("tier", "quick") == "quick" else 400
+    sc["max_evals"] = 120 if arg.get("tier", "quick") == "quick" else 400
+    if arg.get("tier", "quick") == "quick" and sc.get("repeat"):
+        sc["iterations"] = min(sc["iterations"], 2)  # two optimize() calls already make up to four iterations
     res = run_scenario(sc)
     out: Dict[str, Any] = {"seed": seed, "violations": [], "runs": 1, "stats": dict(res["stats"]), "klass": sc["kind"]}
     for v in res["violations"]:
